@@ -1,4 +1,6 @@
 import GstVerif.LinAlg.Mat
+import GstVerif.Fit.Model
+import Mathlib.Tactic.FieldSimp
 import Mathlib.Data.Matrix.Mul
 import Mathlib.LinearAlgebra.Matrix.DotProduct
 import Mathlib.Algebra.BigOperators.Ring.Finset
@@ -16,9 +18,18 @@ of variables); a bound constraint enforced by clamping is satisfied for every pr
 sills by exact certificate, positive ranges, every user constraint, isotropy / locked rotation,
 save / reload / kriging) is checked on the library for generated variograms and constraint sets
 (`harness/vh_c17.cpp`), each condition being decided by the Lean driver.
+
+The bookkeeping that carries the user's constraints to the optimiser is modelled (`GstVerif/Fit/Model.lean`)
+and tied to the library's own functions through a verification hook: packing of the five designators
+of a parameter into one identifier and back (`decode_encode`, `encode_injective`, `encode_range`: no
+two parameters share an identifier, no 32-bit overflow), look-up of a constraint (`cget_sound`,
+`cget_complete`, `equal_answers`), merge into the bounds and initial value of the parameter
+(`affect_bounds`: bounds only tighten; `affect_within`: the initial value lies in the merged bounds,
+under a side condition whose necessity is witnessed by `affect_within_needs_side`; `equality_fixes`),
+compression of the undefined parameters (`compress_*`).
 -/
 namespace GstProofs.C17
-open Matrix
+open Matrix GstVerif GstVerif.Fit
 
 variable {n : Type*} [Fintype n] [DecidableEq n]
 
@@ -56,5 +67,197 @@ theorem clamp_idem (lo hi x : ℚ) (h : lo ≤ hi) : clamp lo hi (clamp lo hi x)
   obtain ⟨a, b⟩ := clamp_within lo hi x h
   unfold clamp at a b ⊢
   split <;> split <;> simp_all <;> linarith
+
+
+/-! ### parameter identifiers -/
+
+theorem Pid.valid_iff (f : Pid) : f.valid = true ↔
+    (0 ≤ f.imod ∧ f.imod < 50) ∧ (0 ≤ f.icov ∧ f.icov < 50) ∧ (0 ≤ f.icons ∧ f.icons < 50) ∧
+    (0 ≤ f.ivar ∧ f.ivar < 50) ∧ (0 ≤ f.jvar ∧ f.jvar < 50) := by
+  simp only [Pid.valid, decide_eq_true_eq]
+
+/-- unpacking what was packed returns the five designators, whenever each is a legal digit -/
+theorem decode_encode (f : Pid) (h : f.valid = true) : decode (encode f) = f := by
+  obtain ⟨⟨a0, a1⟩, ⟨b0, b1⟩, ⟨c0, c1⟩, ⟨d0, d1⟩, ⟨e0, e1⟩⟩ := (Pid.valid_iff f).1 h
+  obtain ⟨a, b, c, d, e⟩ := f
+  simp only at a0 a1 b0 b1 c0 c1 d0 d1 e0 e1
+  have step : ∀ x y : Int, 0 ≤ x → 0 ≤ y → y < 50 → (x * 50 + y).tdiv 50 = x := by
+    intro x y hx hy hy'
+    rw [Int.tdiv_eq_ediv_of_nonneg (by omega)]
+    omega
+  have hA : 0 ≤ a * 50 + b := by omega
+  have hB : 0 ≤ (a * 50 + b) * 50 + c := by omega
+  have hC : 0 ≤ ((a * 50 + b) * 50 + c) * 50 + d := by omega
+  simp only [decode, encode, CONG]
+  rw [step _ e hC e0 e1, step _ d hB d0 d1, step _ c hA c0 c1, step a b a0 b0 b1]
+  have : a.tdiv 50 = 0 := by rw [Int.tdiv_eq_ediv_of_nonneg a0]; omega
+  rw [this]
+  congr 1 <;> omega
+
+/-- two different parameters never share an identifier -/
+theorem encode_injective (f g : Pid) (hf : f.valid = true) (hg : g.valid = true)
+    (h : encode f = encode g) : f = g := by
+  rw [← decode_encode f hf, ← decode_encode g hg, h]
+
+/-- the identifier fits a 32-bit signed integer -/
+theorem encode_range (f : Pid) (h : f.valid = true) : 0 ≤ encode f ∧ encode f < 2 ^ 31 := by
+  obtain ⟨⟨a0, a1⟩, ⟨b0, b1⟩, ⟨c0, c1⟩, ⟨d0, d1⟩, ⟨e0, e1⟩⟩ := (Pid.valid_iff f).1 h
+  simp only [encode, CONG]
+  constructor <;> omega
+
+/-! ### looking a constraint up -/
+
+/-- whatever is returned is the value of an item of the user's list designating that parameter and
+answering that kind of request -/
+theorem cget_sound (items : List Item) (icase igrf icov icons iv1 iv2 : Int) (v : Q)
+    (h : cget items icase igrf icov icons iv1 iv2 = some v) :
+    ∃ it ∈ items, it.designates igrf icov icons iv1 iv2 = true ∧ it.answers icase = true ∧ it.value = v := by
+  unfold cget at h
+  split at h
+  · rename_i it hit
+    have hm := List.mem_of_find?_eq_some hit
+    have hp := List.find?_some hit
+    simp only [Bool.and_eq_true] at hp
+    injection h with h
+    exact ⟨it, hm, hp.1, hp.2, h⟩
+  · cases h
+
+/-- a constraint of the list is never lost: if some item designates the parameter and answers the
+request, a value is returned -/
+theorem cget_complete (items : List Item) (icase igrf icov icons iv1 iv2 : Int) (it : Item) (hm : it ∈ items)
+    (hd : it.designates igrf icov icons iv1 iv2 = true) (ha : it.answers icase = true) :
+    (cget items icase igrf icov icons iv1 iv2).isSome = true := by
+  unfold cget
+  split
+  · rfl
+  · rename_i hnone
+    have := List.find?_eq_none.1 hnone it hm
+    simp [hd, ha] at this
+
+/-- an equality serves as lower and as upper bound, never as a default value -/
+theorem equal_answers (it : Item) (h : it.icase = 2) :
+    it.answers (-1) = true ∧ it.answers 1 = true ∧ it.answers 0 = false := by
+  simp [Item.answers, h]
+
+/-! ### merge of one constraint -/
+
+theorem mergeLower_ge (cur new : Val) (c : Q) (h : cur = some c) : ∃ r, mergeLower cur new = some r ∧ c ≤ r := by
+  subst h
+  cases new with
+  | none => exact ⟨c, rfl, le_refl _⟩
+  | some n =>
+    simp only [mergeLower]
+    split
+    · exact ⟨c, rfl, le_refl _⟩
+    · exact ⟨n, rfl, by linarith⟩
+
+theorem mergeLower_ge_new (cur new : Val) (n : Q) (h : new = some n) : ∃ r, mergeLower cur new = some r ∧ n ≤ r := by
+  subst h
+  cases cur with
+  | none => exact ⟨n, rfl, le_refl _⟩
+  | some c =>
+    simp only [mergeLower]
+    split
+    · exact ⟨c, rfl, by linarith⟩
+    · exact ⟨n, rfl, le_refl _⟩
+
+theorem mergeUpper_le (cur new : Val) (c : Q) (h : cur = some c) : ∃ r, mergeUpper cur new = some r ∧ r ≤ c := by
+  subst h
+  cases new with
+  | none => exact ⟨c, rfl, le_refl _⟩
+  | some n =>
+    simp only [mergeUpper]
+    split
+    · exact ⟨c, rfl, le_refl _⟩
+    · exact ⟨n, rfl, by linarith⟩
+
+theorem mergeUpper_le_new (cur new : Val) (n : Q) (h : new = some n) : ∃ r, mergeUpper cur new = some r ∧ r ≤ n := by
+  subst h
+  cases cur with
+  | none => exact ⟨n, rfl, le_refl _⟩
+  | some c =>
+    simp only [mergeUpper]
+    split
+    · exact ⟨c, rfl, by linarith⟩
+    · exact ⟨n, rfl, le_refl _⟩
+
+/-- bounds only tighten: after the merge the bounds are those of `mergeLower` / `mergeUpper`, and the
+parameter always has an initial value -/
+theorem affect_bounds (d l u : Val) (s : Slot) :
+    (affect d l u s).lower = mergeLower s.lower l ∧ (affect d l u s).upper = mergeUpper s.upper u ∧
+    (affect d l u s).param.isSome = true := by
+  simp [affect]
+
+/-- the initial value lies inside the merged bounds — for a compatible pair of bounds `lo ≤ up` under
+the side condition `0 < lo ∨ 0 ≤ up` (the branch `up / 2` of the source leaves a negative interval) -/
+theorem affect_within (d l u : Val) (s : Slot) (lo up : Q)
+    (hl : mergeLower s.lower l = some lo) (hu : mergeUpper s.upper u = some up) (hle : lo ≤ up)
+    (hside : 0 < lo ∨ 0 ≤ up) :
+    ∃ p, (affect d l u s).param = some p ∧ lo ≤ p ∧ p ≤ up := by
+  simp only [affect, hl, hu]
+  generalize initVal s.param d = p0
+  refine ⟨_, rfl, ?_⟩
+  by_cases hout : (decide (p0 < lo) || decide (up < p0)) = true
+  · rw [if_pos hout]
+    by_cases hlo : 0 < lo
+    · rw [if_pos hlo]; constructor <;> linarith
+    · rw [if_neg hlo]
+      rcases hside with h | h
+      · exact absurd h hlo
+      · constructor <;> linarith
+  · rw [if_neg hout]
+    simp only [Bool.or_eq_true, decide_eq_true_eq, not_or, not_lt] at hout
+    exact hout
+
+/-- the side condition cannot be dropped: an interval of negative values is left by the initial value -/
+theorem affect_within_needs_side :
+    ∃ p, (affect none (some (-10)) (some (-2)) { param := none, lower := none, upper := none }).param = some p ∧ ¬ (p ≤ -2) := by
+  refine ⟨-1, by decide +kernel, by norm_num⟩
+
+/-- one-sided bounds are always respected by the initial value -/
+theorem affect_lower_only (d l u : Val) (s : Slot) (lo : Q)
+    (hl : mergeLower s.lower l = some lo) (hu : mergeUpper s.upper u = none) :
+    ∃ p, (affect d l u s).param = some p ∧ lo ≤ p := by
+  simp only [affect, hl, hu]
+  generalize initVal s.param d = p0
+  refine ⟨_, rfl, ?_⟩
+  split <;> linarith
+
+theorem affect_upper_only (d l u : Val) (s : Slot) (up : Q)
+    (hl : mergeLower s.lower l = none) (hu : mergeUpper s.upper u = some up) :
+    ∃ p, (affect d l u s).param = some p ∧ p ≤ up := by
+  simp only [affect, hl, hu]
+  generalize initVal s.param d = p0
+  refine ⟨_, rfl, ?_⟩
+  split <;> linarith
+
+/-- an equality constraint with a positive value on a fresh parameter fixes bounds and initial value -/
+theorem equality_fixes (items : List Item) (f : Pid) (it : Item) (v : Q) (hv : 0 < v)
+    (hfirst : ∀ k, items.find? (fun it => it.designates f.imod f.icov f.icons f.ivar f.jvar && it.answers k) =
+      if k = -1 ∨ k = 1 then some it else none)
+    (hval : it.value = v) :
+    applyTo items f { param := none, lower := none, upper := none } = { param := some v, lower := some v, upper := some v } := by
+  have h0 := hfirst 0
+  have hm := hfirst (-1)
+  have hp := hfirst 1
+  simp only [show ¬ ((0 : Int) = -1 ∨ (0 : Int) = 1) by decide, if_false] at h0
+  simp only [true_or, or_true, if_true] at hm hp
+  simp only [applyTo, cget, h0, hm, hp, hval, affect, mergeLower, mergeUpper, initVal, Option.getD_none]
+  have : (0 : Q) < v ∨ v < 0 ↔ True := by simp [hv]
+  simp [hv, not_lt.mpr hv.le]
+
+/-! ### compression -/
+
+theorem compress_defined (rows : List Row) : ∀ r ∈ compress rows, r.slot.param.isSome = true := by
+  intro r hr; exact (List.mem_filter.1 hr).2
+
+theorem compress_sublist (rows : List Row) : (compress rows).Sublist rows := List.filter_sublist
+
+theorem compress_keeps (rows : List Row) (r : Row) (hr : r ∈ rows) (hd : r.slot.param.isSome = true) :
+    r ∈ compress rows := List.mem_filter.2 ⟨hr, hd⟩
+
+/-- non-vacuity: a packed identifier and its designators -/
+example : encode { imod := 1, icov := 2, icons := 4, ivar := 1, jvar := 0 } = 6510050 ∧
+    decode 6510050 = { imod := 1, icov := 2, icons := 4, ivar := 1, jvar := 0 } := by decide +kernel
 
 end GstProofs.C17
